@@ -43,11 +43,22 @@ def generate(repo):
     n_est = len(re.findall(r"\bbroadcast\(\)", est))
     if n_est == 0:
         raise ValueError("HandleLinkEstablished no longer broadcasts: the Link model does not apply")
+    # transport/common/quic/quic.go handleLinkLost: is the controller only told about
+    # the loss when the link is still the one registered at its address?
+    qsrc = strip_comments(open(os.path.join(repo, "transport", "common", "quic", "quic.go"), errors="replace").read())
+    qlost = func_body(qsrc, r"func \(t \*Transport\) handleLinkLost\(addrStr string, lnk \*Link\) \{")
+    calls = re.findall(r"if ([^{]*)\{\s*t\.handler\.HandleLinkLost\(lnk\)", qlost)
+    if len(calls) != 1 and "t.handler.HandleLinkLost(lnk)" not in qlost:
+        raise ValueError("handleLinkLost no longer calls HandleLinkLost")
+    needs_current = 1 if (len(calls) == 1 and re.search(r"\brel\b", calls[0])) else 0
     out = [
         "(* GENERATED from %s by tools/gen/plugins/link_ctl.py - do not edit *)" % repo,
         "From Coq Require Import ZArith.", "Open Scope Z_scope.", "",
         "(* transport/controller/transport-handler.go : broadcast() calls in HandleLinkLost *)",
         "Definition link_lost_broadcast_calls : Z := %d." % n_lost,
         "(* transport/controller/transport-handler.go : broadcast() calls in HandleLinkEstablished *)",
-        "Definition link_est_broadcast_calls : Z := %d." % n_est, ""]
+        "Definition link_est_broadcast_calls : Z := %d." % n_est,
+        "(* transport/common/quic/quic.go handleLinkLost: 1 if HandleLinkLost(lnk) is only called when the",
+        "   link is still the one registered at its address (guard mentions rel), 0 if it is always called *)",
+        "Definition quic_lost_needs_current : Z := %d." % needs_current, ""]
     return {"LinkCtl.v": "\n".join(out)}
